@@ -113,7 +113,11 @@ SHARED = {
 }
 
 
+_CUR_SHARED = None      # the shared registries' lists as the history being generated has left them
+
+
 def gen_allow(rng: Rng, family: str, names: list) -> dict:
+    SHARED = _CUR_SHARED or globals()["SHARED"]
     r = rng.random()
     universe = (JWS_SUPPORTED if family == "jws" else JWE_ALG + JWE_ENC + ["DEF"] + DRAFT_ALG + DRAFT_ENC)
     if r < 0.22:
@@ -122,7 +126,7 @@ def gen_allow(rng: Rng, family: str, names: list) -> dict:
         return {"how": "registry-default", "list": None}
     if r < 0.50:
         i = rng.randrange(4)
-        return {"how": "registry-shared", "id": i, "list": SHARED[family][i]}
+        return {"how": "registry-shared", "id": i, "list": copy.deepcopy(SHARED[family][i])}
     if r < 0.56:
         # both arguments at once: which one wins is a don't-care (JWS and JWE differ), but the call is a *history event*:
         # it must not change what the shared / default registry allows in later calls
@@ -130,7 +134,7 @@ def gen_allow(rng: Rng, family: str, names: list) -> dict:
         lst = rng.sample(universe, rng.randrange(1, 4))
         if rng.chance(0.5):
             lst = list(dict.fromkeys([n for n in names if isinstance(n, str)] + lst))
-        return {"how": "both", "id": i, "list": lst, "registry_list": SHARED[family][i] if i < 4 else None}
+        return {"how": "both", "id": i, "list": lst, "registry_list": copy.deepcopy(SHARED[family][i]) if i < 4 else None}
     if r < 0.60:
         # an explicit empty list allows nothing (it is not "no list")
         return {"how": rng.pick(["algorithms", "registry-fresh"]), "list": []}
@@ -167,12 +171,31 @@ def gen_name(rng: Rng, pool: list):
 
 
 def gen_history(rng: Rng, tier: str) -> list:
+    global _CUR_SHARED
     n = rng.randrange(20, 80) if tier == "quick" else rng.randrange(40, 200)
     ops = []
+    _CUR_SHARED = copy.deepcopy(SHARED)
     for i in range(n):
         r = rng.random()
         if r < 0.02:
             ops.append({"op": "register", "what": rng.pick(["1pu", "chacha"])})
+            continue
+        if r < 0.05:
+            # the application edits the allow-list of a long-lived registry (a feature switch): later calls follow the new list
+            fam = rng.pick(["jws", "jwe"])
+            j = rng.randrange(3)
+            cur = _CUR_SHARED[fam][j]
+            universe = JWS_SUPPORTED if fam == "jws" else JWE_ALG + JWE_ENC + ["DEF"]
+            how = rng.pick(["remove", "append", "reassign"])
+            if how == "remove" and len(cur) > 1:
+                new = cur[1:] if rng.chance(0.5) else cur[:-1]
+            elif how == "append":
+                new = cur + [x for x in [rng.pick(universe)] if x not in cur]
+            else:
+                how = "reassign"
+                new = rng.sample(universe, rng.randrange(1, 4))
+            _CUR_SHARED[fam][j] = list(new)
+            ops.append({"op": "edit-shared", "fam": fam, "id": j, "how": how, "list": list(new)})
             continue
         if r < 0.55:
             op = rng.pick(JWS_OPS)
@@ -193,11 +216,14 @@ def gen_history(rng: Rng, tier: str) -> list:
                 enc = rng.pick(JWE_ENC[:3])      # 1PU key wrapping with a non CBC-HMAC enc is refused for another reason
             z = rng.pick([None, None, None, "DEF", "DEF", rng.pick(["ZIP", "GZ", 7])])
             d = {"op": op, "algs": algs, "enc": enc, "zip": z, "allow": gen_allow(rng, "jwe", algs + [enc] + ([z] if z else []))}
+        if rng.chance(0.2):
+            d["key_alg"] = True      # the key's JWK names, in its optional "alg" member, the algorithm in use: that is no allow-list
         if not d["op"].endswith("general") and rng.chance(0.2):
             # the key is resolved by a callable that itself uses joserfc with another allow-list (a signed key directory,
             # a wrapped key store): the outer call's allow-list must be the one that decides
             d["reentrant"] = rng.pick(["jws", "jwe"])
         ops.append(d)
+    _CUR_SHARED = None
     return ops
 
 
@@ -318,6 +344,14 @@ def execute_op(node: Node, d: dict, state: dict):
     from joserfc import jws, jwe, jwt, rfc7797
     from joserfc.jwe import JWERegistry
     op = d["op"]
+    if op == "edit-shared":
+        for fam in ([d["fam"], "jws7797"] if d["fam"] == "jws" else [d["fam"]]):
+            reg = node.shared[fam][d["id"]]
+            if d["how"] == "reassign":
+                reg.allowed = list(d["list"])
+            else:
+                reg.allowed[:] = list(d["list"])      # edited in place
+        return "ok", None, None
     if op == "register":
         if d["what"] == "1pu":
             from joserfc.drafts.jwe_ecdh_1pu import register_ecdh_1pu
@@ -338,8 +372,10 @@ def execute_op(node: Node, d: dict, state: dict):
                 kw = _kw(node, allow, "jws", r7797)
                 a0 = algs[0]
                 real0 = a0 if isinstance(a0, str) and a0 in JWS_SUPPORTED else related_real(a0, JWS_SUPPORTED, "HS256")
-                jkey = K.to_jose_fast(node.jws_keys[real0], True)
-                pub = K.to_jose_fast(node.jws_keys[real0] if node.jws_keys[real0].kty == "oct" else node.jws_keys[real0].public(), node.jws_keys[real0].kty == "oct")
+                kparams = {"alg": a0} if d.get("key_alg") and isinstance(a0, str) else None
+                jkey = K.to_jose_fast(node.jws_keys[real0], True, params=kparams)
+                pub = K.to_jose_fast(node.jws_keys[real0] if node.jws_keys[real0].kty == "oct" else node.jws_keys[real0].public(), node.jws_keys[real0].kty == "oct",
+                                     params=kparams)
                 jkey, pub = _reentrant(node, jkey, d.get("reentrant")), _reentrant(node, pub, d.get("reentrant"))
                 hdr7797 = {"alg": a0, "b64": False, "crit": ["b64"]}
                 if op == "jws.serialize_compact":
@@ -400,8 +436,9 @@ def execute_op(node: Node, d: dict, state: dict):
                 sender = node.sender
             skw = {"sender_key": K.to_jose_fast(sender, True)} if sender is not None else {}
             skw_pub = {"sender_key": K.to_jose_fast(sender.public(), False)} if sender is not None else {}
-            pubk = K.to_jose_fast(rkey if rkey.kty == "oct" else rkey.public(), rkey.kty == "oct")
-            privk = K.to_jose_fast(rkey, True)
+            kparams = {"alg": a0} if d.get("key_alg") and isinstance(a0, str) else None
+            pubk = K.to_jose_fast(rkey if rkey.kty == "oct" else rkey.public(), rkey.kty == "oct", params=kparams)
+            privk = K.to_jose_fast(rkey, True, params=kparams)
             pubk, privk = _reentrant(node, pubk, d.get("reentrant")), _reentrant(node, privk, d.get("reentrant"))
             if op == "jwe.encrypt_compact":
                 return "ok", None, jwe.encrypt_compact(dict(prot, alg=a0), b"c05", pubk, **kw, **skw)
@@ -486,7 +523,7 @@ def _jwe_token(node, algs, enc, z, form, state):
 def expectation(d: dict, state: dict):
     """-> ('ok'|'refuse'|'never-verifies', names that are not allowed)"""
     op = d["op"]
-    if op == "register":
+    if op in ("register", "edit-shared"):
         return "ok", []
     fam = "jwe" if op.startswith("jwe.") or op.endswith(".jwe") else "jws"
     allow = d["allow"]
@@ -512,7 +549,7 @@ def expectation(d: dict, state: dict):
 
 def judge(d: dict, state_before: dict, outcome) -> tuple | None:
     status, exc, detail = outcome
-    if d["op"] == "register":
+    if d["op"] in ("register", "edit-shared"):
         return None
     if d["allow"]["how"] == "both" and d["allow"].get("registry_list") is not None:
         return None       # two conflicting explicit lists: don't-care zone; only the after-effects on later calls are judged
@@ -617,6 +654,9 @@ def _run(rng: Rng, tier: str, index: int) -> RunResult:
     for i, d, verdict, outcome in results:
         if d["op"] == "register":
             res.fired("history-event:register-" + d["what"])
+            continue
+        if d["op"] == "edit-shared":
+            res.fired("history-event:shared-registry-list-edited")
             continue
         want = expectation(d, {"1pu": True, "chacha": True})[0]
         res.case(json.dumps({k: v for k, v in d.items()}, sort_keys=True, default=repr))
